@@ -1,6 +1,10 @@
 package redis
 
-import "strconv"
+import (
+	"errors"
+	"math"
+	"strconv"
+)
 
 func FormatFloat64(s string) (float64, error) {
 	var f string
@@ -9,7 +13,12 @@ func FormatFloat64(s string) (float64, error) {
 	} else {
 		f = s
 	}
-	return strconv.ParseFloat(f, 64)
+	v, err := strconv.ParseFloat(f, 64)
+	if err == nil && math.IsNaN(v) {
+		// NaN is not ordered: as a score or a range bound it corrupts sorted sets
+		return 0, errors.New("value is not a valid float")
+	}
+	return v, err
 }
 
 func FormatInt64(s string) (int64, error) {
